@@ -259,6 +259,13 @@ class RichCast:
 
 
 # --------------------------------------------------------------------------------------------
+def _alt(spec, n):
+    """Deterministic choice of an alternative (documented, equivalent) construction route for a spec: the
+    generator's random stream is not consumed, the same spec always takes the same route."""
+    from rv.core.ctx import stable_hash
+    return stable_hash(repr(sorted((k, repr(v)) for k, v in spec.items() if k not in ("child", "children", "items", "rows", "root")))) % n
+
+
 def build(spec):
     """A fresh Rich renderable for the spec."""
     k = spec["k"]
@@ -279,14 +286,23 @@ def build(spec):
     if k == "panel":
         from rich.panel import Panel
         from rich import box
+        if not spec["expand"] and _alt(spec, 2) == 0:
+            return Panel.fit(build(spec["child"]), getattr(box, spec["box"]), title=spec["title"],
+                             title_align=spec["title_align"], width=spec["width"], padding=spec["padding"],
+                             safe_box=spec.get("safe_box"), style=spec.get("style", "none"))
         return Panel(build(spec["child"]), getattr(box, spec["box"]), title=spec["title"],
                      title_align=spec["title_align"], expand=spec["expand"], width=spec["width"],
                      padding=spec["padding"], safe_box=spec.get("safe_box"), style=spec.get("style", "none"))
     if k == "padding":
         from rich.padding import Padding
-        return Padding(build(spec["child"]), spec["pad"], expand=spec["expand"])
+        pad = spec["pad"]
+        if not spec["expand"] and isinstance(pad, tuple) and len(pad) == 4 and pad[:3] == (0, 0, 0):
+            return Padding.indent(build(spec["child"]), pad[3])
+        return Padding(build(spec["child"]), pad, expand=spec["expand"])
     if k == "align":
         from rich.align import Align
+        if _alt(spec, 3) == 0:
+            return getattr(Align, spec["align"])(build(spec["child"]), pad=spec["pad"], width=spec["width"])
         return Align(build(spec["child"]), spec["align"], pad=spec["pad"], width=spec["width"])
     if k == "constrain":
         from rich.constrain import Constrain
@@ -299,6 +315,13 @@ def build(spec):
         return RenderGroup(*[build(c) for c in spec["children"]], fit=spec["fit"])
     if k == "columns":
         from rich.columns import Columns
+        if _alt(spec, 3) == 0:
+            cols = Columns(None, padding=spec["padding"], width=spec.get("width"),
+                           expand=spec["expand"], equal=spec["equal"], column_first=spec["column_first"],
+                           right_to_left=spec["right_to_left"], align=spec["align"], title=spec["title"])
+            for i in spec["items"]:
+                cols.add_renderable(build(i))
+            return cols
         return Columns([build(i) for i in spec["items"]], padding=spec["padding"], width=spec.get("width"),
                        expand=spec["expand"], equal=spec["equal"], column_first=spec["column_first"],
                        right_to_left=spec["right_to_left"], align=spec["align"], title=spec["title"])
@@ -337,6 +360,30 @@ def build_table(spec):
               show_edge=spec["show_edge"], show_lines=spec["show_lines"], leading=spec["leading"],
               row_styles=spec["row_styles"], style=spec.get("style", "none"))
     declared = spec.get("declared", len(spec["columns"]))
+    route = _alt(spec, 4) if "declared" not in spec else 3
+    if route == 0 and spec["columns"]:
+        # columns handed to the constructor as Column objects (documented: Table(*headers: Union[Column, str]))
+        from rich.table import Column
+        kw = dict(title=spec["title"], caption=spec["caption"], width=spec["width"], min_width=spec["min_width"],
+                  box=getattr(box, spec["box"]) if spec["box"] else None, safe_box=spec.get("safe_box"),
+                  padding=spec["padding"], collapse_padding=spec["collapse_padding"], pad_edge=spec["pad_edge"],
+                  expand=spec["expand"], show_header=spec["show_header"], show_footer=spec["show_footer"],
+                  show_edge=spec["show_edge"], show_lines=spec["show_lines"], leading=spec["leading"],
+                  row_styles=spec["row_styles"], style=spec.get("style", "none"))
+        t = Table(*[Column(build(c["header"]), build(c["footer"]), justify=c["justify"], overflow=c["overflow"],
+                           ratio=c["ratio"], max_width=c["max_width"], width=c["width"], min_width=c["min_width"],
+                           no_wrap=c["no_wrap"], style=c.get("style") or "") for c in spec["columns"]], **kw)
+        declared = 0
+        spec = dict(spec, columns=[])       # (only for the loop below: nothing left to declare)
+        for r in spec["rows"]:
+            t.add_row(*[build(c) for c in r["cells"]], style=r["style"], end_section=r["end_section"])
+        return t
+    if route == 1:
+        # options changed after construction through the documented setters
+        t.expand = not spec["expand"]
+        t.expand = spec["expand"]
+        t.padding = (3, 3, 3, 3)
+        t.padding = spec["padding"]
     for c in spec["columns"][:declared]:
         t.add_column(build(c["header"]), build(c["footer"]), justify=c["justify"], overflow=c["overflow"],
                      ratio=c["ratio"], max_width=c["max_width"], width=c["width"], min_width=c["min_width"],
